@@ -9,6 +9,8 @@
 #include <cstdlib>
 #include <csignal>
 #include <unistd.h>
+#include <sys/time.h>
+#include <cstring>
 #include <iostream>
 #include <sstream>
 #include <string>
@@ -31,6 +33,14 @@ static std::string unhexs(const std::string& h) {
   return r;
 }
 
+// termination is judged by CPU time, not wall time (a loaded machine must not look like a hang):
+// ITIMER_PROF counts the user+system CPU time of this process and raises SIGPROF when it is used up
+static void cpu_limit(int seconds) {
+  struct itimerval t;
+  std::memset(&t, 0, sizeof t);
+  t.it_value.tv_sec = seconds;
+  setitimer(ITIMER_PROF, &t, nullptr);
+}
 static void on_alarm(int) {
   static const char m[] = "O timeout\n";
   ssize_t r = write(1, m, sizeof m - 1); (void)r;
@@ -51,7 +61,7 @@ template <typename F> static void guarded(F f) {
 
 int main()
 {
-  std::signal(SIGALRM, on_alarm);
+  std::signal(SIGPROF, on_alarm);
   std::string line;
   bool is_case;
   while (vp::next(line, is_case)) {
@@ -60,7 +70,7 @@ int main()
     if (t.size() != 2) { std::cout << "bad-op\n"; continue; }
     std::string doc = unhexs(t[1]);
     std::cout.flush();
-    alarm(10);
+    cpu_limit(10);
     if (t[0] == "xml" || t[0] == "html") {
       const bool html = t[0] == "html";
       guarded([&] {
@@ -95,7 +105,7 @@ int main()
         for (auto* o : objects) delete o;
       });
     } else std::cout << "bad-op\n";
-    alarm(0);
+    cpu_limit(0);
     std::cout.flush();
   }
   return 0;
